@@ -43,6 +43,7 @@ struct Exec {
     bool verbose = false;
     bool redirected = false;   // the last attempt ended with a redirect: the next TCP connection was opened by the client itself
     bool redirectGivenUp = false;
+    int connectingBeforeLoss = 0, errorsBeforeLoss = 0;
     int stateReportsBase = 0;   // stateChanged(ConnectedState) emissions before the TCP connection of the current attempt was opened   // ... or the client did not follow it and is disconnected
     QStringList trace;
 
@@ -88,7 +89,14 @@ struct Exec {
                     }
                     return true;
                 }
+                connectingBeforeLoss = rig.connectingStateReports;
+                errorsBeforeLoss = rig.errorSignals;
                 rig.server.closePeer(!a.fin);
+                rig.sync();
+                // give a client that (wrongly) dials again by itself the chance to show it
+                for (int i = 0; i < 3; ++i) {
+                    QCoreApplication::processEvents();
+                }
                 rig.sync();
                 return true;
             }
@@ -297,6 +305,10 @@ struct Exec {
             checkRequests(ctx);
             return;
         }
+        if (!a.redirect && rig.connectingStateReports != connectingBeforeLoss) {
+            // automatic reconnection is switched off in the configuration: after a plain loss nobody asked for a new connection
+            problem(QStringLiteral("connects-by-itself-after-loss"), QStringLiteral("%1: the client entered the Connecting state %2 time(s) by itself after the connection was lost").arg(ctx).arg(rig.connectingStateReports - connectingBeforeLoss));
+        }
         if (rig.client->state() != QXmppClient::DisconnectedState || rig.client->isConnected()) {
             problem(QStringLiteral("not-disconnected-after-loss"), QStringLiteral("%1: state()=%2 isConnected()=%3 after the connection was lost").arg(ctx).arg(int(rig.client->state())).arg(rig.client->isConnected()));
         }
@@ -459,8 +471,8 @@ int main(int argc, char **argv)
     // 3 attempts
     if (maxAttempts >= 3) {
         for (const auto &c1 : cuts) {
-            if (c1.acceptResume || ((c1.fin || c1.redirect) && !ctx.thorough())) {
-                continue;
+            if (c1.acceptResume || ((c1.fin || (c1.redirect && !(c1.redirect == 1 && c1.cut == AfterEstablished))) && !ctx.thorough())) {
+                continue;   // quick: FIN and redirects not in the first of three attempts, except a followed redirect of an established session
             }
             for (const auto &c2 : cuts) {
                 if (c2.fin && !ctx.thorough()) {
